@@ -1,32 +1,63 @@
 ------------------------------- MODULE NixIds -------------------------------
 (***************************************************************************)
-(* Id generation across processes (C12).  Every process seeds a generator  *)
-(* when it starts and then draws ids from it; an id is the pair            *)
-(* <<seed, counter>>.  The design decision under test is the seed source:  *)
-(*   "time"    - the wall-clock second at start (the pinned code)           *)
-(*   "entropy" - a value no other process ever gets (system entropy)        *)
-(* Actions: Tick (the clock advances), Start(p), CreateId(p), Exit(p) with  *)
-(* restart allowed.  IdsUnique: no id is ever issued twice.                 *)
+(* Id generation across processes and threads (C12).  An execution context  *)
+(* (a process, a forked child, a thread) draws ids from a generator; an id   *)
+(* is the pair <<seed, counter>> of the generator state it was drawn from.  *)
+(* The design decision under test is where the randomness comes from:       *)
+(*   "time"         - one generator per process, seeded with the wall-clock *)
+(*                    second at start (the pinned code)                     *)
+(*   "entropy_once" - one generator per process, seeded once from the       *)
+(*                    system entropy source                                 *)
+(*   "per_thread"   - as entropy_once, but every thread gets its own        *)
+(*                    generator started from the process's seed             *)
+(*   "entropy"      - every id is drawn from the entropy source (the code    *)
+(*                    after the fix: boost random_generator_pure)           *)
+(* Actions: Tick (the clock advances), Start(p), Fork(p, q) (q continues    *)
+(* with a COPY of p's memory, generator state included), Thread(p, q)       *)
+(* (q runs inside p's process), CreateId(p), Exit(p) with restart allowed.  *)
+(* IdsUnique: no id is ever issued twice.  It holds for "entropy" only:     *)
+(* "time" collides for two starts within a second, "entropy_once" after a   *)
+(* fork, "per_thread" between the threads of a process.                     *)
 (***************************************************************************)
 EXTENDS NixCommon
-CONSTANTS Procs, MaxClock, MaxIds, MaxStarts, SeedSource
-VARIABLES clock, running, seed, ctr, issued, fresh, dup
-vars == <<clock, running, seed, ctr, issued, fresh, dup>>
+CONSTANTS Procs, MaxClock, MaxIds, MaxStarts, SeedSource, Acts
+VARIABLES clock, running,
+          gen,      \* context -> generator it draws from (0 = none)
+          seed, ctr,\* generator -> state
+          ngen,     \* generators allocated so far
+          issued, fresh, dup
+vars == <<clock, running, gen, seed, ctr, ngen, issued, fresh, dup>>
+Gens == 1..(MaxStarts + 1)
 
-Init == /\ clock = 0 /\ running = {} /\ seed = [p \in Procs |-> 0] /\ ctr = [p \in Procs |-> 0]
+Init == /\ clock = 0 /\ running = {} /\ gen = [p \in Procs |-> 0]
+        /\ seed = [g \in Gens |-> 0] /\ ctr = [g \in Gens |-> 0] /\ ngen = 0
         /\ issued = {} /\ fresh = 1000 /\ dup = FALSE
-Tick == /\ clock < MaxClock /\ clock' = clock + 1 /\ UNCHANGED <<running, seed, ctr, issued, fresh, dup>>
-Start(p) == /\ p \notin running /\ fresh < 1000 + MaxStarts /\ running' = running \cup {p}
-            /\ seed' = [seed EXCEPT ![p] = IF SeedSource = "time" THEN clock ELSE fresh]
-            /\ fresh' = fresh + 1 /\ ctr' = [ctr EXCEPT ![p] = 0]
+Tick == /\ clock < MaxClock /\ clock' = clock + 1 /\ UNCHANGED <<running, gen, seed, ctr, ngen, issued, fresh, dup>>
+NewGen(p, s, c) == /\ ngen < MaxStarts /\ ngen' = ngen + 1 /\ gen' = [gen EXCEPT ![p] = ngen + 1]
+                   /\ seed' = [seed EXCEPT ![ngen + 1] = s] /\ ctr' = [ctr EXCEPT ![ngen + 1] = c]
+Start(p) == /\ p \notin running /\ running' = running \cup {p}
+            /\ NewGen(p, IF SeedSource = "time" THEN clock ELSE fresh, 0)
+            /\ fresh' = fresh + 1
             /\ UNCHANGED <<clock, issued, dup>>
+\* the child's memory is a copy of the parent's: same seed, same position in the sequence
+Fork(p, q) == /\ "Fork" \in Acts /\ p \in running /\ q \notin running /\ running' = running \cup {q}
+              /\ NewGen(q, seed[gen[p]], ctr[gen[p]])
+              /\ UNCHANGED <<clock, issued, fresh, dup>>
+\* a thread shares the process's generator, except in the per_thread design (own generator, started from the process's seed)
+Thread(p, q) == /\ "Thread" \in Acts /\ p \in running /\ q \notin running /\ running' = running \cup {q}
+                /\ IF SeedSource = "per_thread" THEN NewGen(q, seed[gen[p]], 0)
+                   ELSE gen' = [gen EXCEPT ![q] = gen[p]] /\ UNCHANGED <<seed, ctr, ngen>>
+                /\ UNCHANGED <<clock, issued, fresh, dup>>
 CreateId(p) == /\ p \in running /\ Cardinality(issued) < MaxIds
-               /\ LET id == <<seed[p], ctr[p]>> IN
+               /\ LET id == IF SeedSource = "entropy" THEN <<fresh, 0>> ELSE <<seed[gen[p]], ctr[gen[p]]>> IN
                   /\ dup' = (dup \/ id \in issued) /\ issued' = issued \cup {id}
-               /\ ctr' = [ctr EXCEPT ![p] = @ + 1]
-               /\ UNCHANGED <<clock, running, seed, fresh>>
-Exit(p) == /\ p \in running /\ running' = running \ {p} /\ UNCHANGED <<clock, seed, ctr, issued, fresh, dup>>
-Next == Tick \/ \E p \in Procs : Start(p) \/ CreateId(p) \/ Exit(p)
+               /\ fresh' = IF SeedSource = "entropy" THEN fresh + 1 ELSE fresh
+               /\ ctr' = [ctr EXCEPT ![gen[p]] = @ + 1]
+               /\ UNCHANGED <<clock, running, gen, seed, ngen>>
+Exit(p) == /\ p \in running /\ running' = running \ {p} /\ UNCHANGED <<clock, gen, seed, ctr, ngen, issued, fresh, dup>>
+Next == \/ Tick
+        \/ \E p \in Procs : Start(p) \/ CreateId(p) \/ Exit(p)
+        \/ \E p, q \in Procs : Fork(p, q) \/ Thread(p, q)
 Spec == Init /\ [][Next]_vars
 IdsUnique == ~dup
 =============================================================================
